@@ -26,6 +26,14 @@ EXCL = {
     'if-stacked-unary': (False, 'pp:if-stacked-unary-operators'),
     'if-ternary-nested': (False, 'pp:if-ternary-right-associativity'),
     'paste-operators': (False, 'pp:paste-forming-operator'),
+    'stringify-apostrophe': (False, 'pp:stringify-escapes-apostrophe'),
+    'stringify-multichar-space': (False, 'pp:stringify-drops-space-after-multichar-token'),
+    'lex-incdec-next-to-number': (False, 'pp:lex-incdec-next-to-number-split'),
+    'lex-number-space-dot': (False, 'pp:lex-number-space-dot-merged'),
+    'lex-shift-space-assign': (False, 'pp:lex-shift-space-assign-merged'),
+    'U-of-file-defined-macro': (False, 'pp:U-hides-define-in-file'),
+    'duplicate-D': (False, 'pp:duplicate-D-first-wins'),
+    'lex-line-starting-with-lt-after-include': (False, 'pp:line-starting-with-lt-after-include'),
 }
 
 
@@ -104,15 +112,21 @@ class Gen:
         self.obj = ['M%d' % i for i in range(6)]                 # object-like, arbitrary bodies
         self.num = ['N%d' % i for i in range(5)]                 # object-like, integer expressions
         self.cfg = ['C%d' % i for i in range(6)]                 # configuration macros (-D/-U, #ifdef)
-        self.fun = {}                                            # name -> (nparams, variadic, kinds)
+        # function-like macros: the arity and the *kind* of every parameter are fixed per name, so that an
+        # invocation written anywhere (before/after a redefinition, in another file) stays valid:
+        #   'any'   parameter is only used plainly            -> arbitrary argument
+        #   'str'   parameter may also be stringified          -> argument from the "stringify-safe" atoms
+        #   'paste' parameter may also be pasted / stringified -> identifier, integer or empty argument
+        self.fun = {}
         for n in range(0, 4):
             for i in range(2):
-                self.fun['F%d_%d' % (n, i)] = (n, False, None)
+                self.fun['F%d_%d' % (n, i)] = {'n': n, 'variadic': False, 'va_str': False,
+                                               'kinds': [rng.choice(['any', 'any', 'str', 'paste']) for _ in range(n)]}
         for n in range(0, 3):
-            self.fun['V%d_0' % n] = (n, True, None)
+            self.fun['V%d_0' % n] = {'n': n, 'variadic': True, 'va_str': rng.random() < 0.5,
+                                     'kinds': [rng.choice(['any', 'str', 'paste']) for _ in range(n)]}
+        self.str_depth = 0                                       # >0 while generating a to-be-stringified argument
         self.numfun = {'SQ': 1, 'ADD': 2, 'MAX': 2}              # numeric function-like (fixed bodies)
-        self.kinds = {}                                          # fun name -> list of 'any'|'paste' as last defined
-        self.defined_fun = set()
         self.f = self.case.features
 
     # ------------------------------------------------------------------ atoms
@@ -126,10 +140,22 @@ class Gen:
         if r < 0.55:
             return self.r.choice(NUMS)
         if r < 0.65:
-            return self.r.choice(STRINGS)
+            t = self.r.choice(STRINGS)
+            if self.str_depth and ((not allowed('stringify-apostrophe') and "'" in t)
+                                   or (not allowed('stringify-multichar-space') and not t.startswith('"'))):
+                return '"s"'
+            return t
         if r < 0.70:
-            return self.r.choice(CHARS)
-        return self.r.choice(PUNCT)
+            if self.str_depth and not allowed('stringify-apostrophe'):
+                return self.ident()
+            t = self.r.choice(CHARS)
+            if self.str_depth and not allowed('stringify-multichar-space') and not t.startswith("'"):
+                return "'a'"
+            return t
+        t = self.r.choice(PUNCT)
+        if self.str_depth and len(t) > 1 and not allowed('stringify-multichar-space'):
+            return t[0]
+        return t
 
     def ws(self):
         """token separator inside generated lines"""
@@ -147,8 +173,42 @@ class Gen:
 
     GLUE = set('(),;[]{}')
 
+    @staticmethod
+    def _isnum(t):
+        return t[:1].isdigit() or (t[:1] == '.' and t[1:2].isdigit())
+
+    def sanitise(self, toks):
+        """apply the finding-keyed *lexical* exclusions: separate token pairs cppcheck is known to mis-lex"""
+        out = []
+        for t in toks:
+            if out:
+                a = out[-1]
+                bad = False
+                if not allowed('lex-incdec-next-to-number'):
+                    bad |= (a in ('++', '--') and self._isnum(t)) or (self._isnum(a) and t in ('++', '--'))
+                if not allowed('lex-number-space-dot'):
+                    bad |= (a == '.' and self._isnum(t)) or (self._isnum(a) and t[:1] == '.')
+                if not allowed('lex-shift-space-assign'):
+                    bad |= a in ('<<', '>>', '<', '>') and t in ('=', '==', '<=', '>=')
+                if bad:
+                    out.append('k')
+            out.append(t)
+        # the same mis-lexing happens across line ends, and a line starting with '<' after an #include line
+        # is rejected: keep such tokens away from both ends of every generated line
+        if out and not allowed('lex-incdec-next-to-number'):
+            if out[0] in ('++', '--'):
+                out.insert(0, 'k')
+            if out[-1] in ('++', '--'):
+                out.append('k')
+        if out and not allowed('lex-line-starting-with-lt-after-include') and out[0][:1] == '<':
+            out.insert(0, 'k')
+        if out and not allowed('lex-number-space-dot') and (out[0][:1] == '.' or out[-1] == '.'):
+            out = ['k'] + out + ['k']
+        return out
+
     def join(self, toks):
         """join token spellings with random white space, never gluing two tokens into another one"""
+        toks = self.sanitise(toks)
         out = []
         for i, t in enumerate(toks):
             if i:
@@ -170,12 +230,18 @@ class Gen:
             return [self.r.choice(self.cfg)]
         return self.call(depth=1)
 
-    def arg(self, depth, kind='any'):
-        """one macro argument as a token list"""
+    def arg(self, depth, kind='any', outer=None):
+        """one macro argument as a token list; outer = {kind: [names]} parameters of the macro being defined"""
         r = self.r
+        if outer and r.random() < 0.4:
+            ok = {'any': ['any', 'str', 'paste'], 'str': ['str', 'paste'], 'paste': ['paste']}[kind]
+            cands = [p for k in ok for p in outer.get(k, [])]
+            if cands:
+                self.f.add('param-passed-to-inner-call')
+                return [r.choice(cands)]
         if kind == 'paste':
             x = r.random()
-            if x < 0.12 and allowed('empty-paste-arg'):
+            if x < 0.12:
                 self.f.add('empty-arg')
                 return []
             if x < 0.55:
@@ -189,6 +255,8 @@ class Gen:
         if x < 0.06:
             self.f.add('empty-arg')
             return []
+        if kind == 'str':
+            self.str_depth += 1
         n = r.choice([1, 1, 1, 2, 3, 4])
         out = []
         for _ in range(n):
@@ -199,7 +267,7 @@ class Gen:
                 out += [r.choice(self.obj + self.num)]
             elif y < 0.8 and depth < 3:
                 self.f.add('nested-call-in-arg')
-                out += self.call(depth + 1)
+                out += self.call(depth + 1, outer=outer)
             elif y < 0.9:
                 self.f.add('paren-comma-arg')
                 out += ['('] + [self.ident(), ',', self.ident()] + [')']
@@ -207,7 +275,9 @@ class Gen:
                 out.append(r.choice(list(self.fun)))  # bare function-like name as argument
                 self.f.add('funname-as-arg')
             else:
-                out.append(r.choice(STRINGS))
+                out.append('"s"' if self.str_depth else r.choice(STRINGS))
+        if kind == 'str':
+            self.str_depth -= 1
         # a top-level comma would split the argument
         return out if self._balanced_no_top_comma(out) else [self.ident()]
 
@@ -231,7 +301,7 @@ class Gen:
             if t not in ('(', ')', ',', '[', ']', '{', '}'):
                 return t
 
-    def call(self, depth=0, name=None):
+    def call(self, depth=0, name=None, outer=None):
         """token list of a function-like macro invocation"""
         r = self.r
         if name is None:
@@ -242,14 +312,12 @@ class Gen:
         if name in self.numfun:
             n = self.numfun[name]
             args = [[r.choice(INTS + self.num)] for _ in range(n)]
-            variadic = False
         else:
-            n, variadic, _ = self.fun[name]
-            kinds = self.kinds.get(name) or ['any'] * n
-            args = [self.arg(depth, kinds[i] if i < len(kinds) else 'any') for i in range(n)]
-            if variadic:
+            fi = self.fun[name]
+            args = [self.arg(depth, fi['kinds'][i], outer) for i in range(fi['n'])]
+            if fi['variadic']:
                 k = r.choice([0, 1, 1, 2, 3])
-                if k == 0 and n == 0:
+                if k == 0 and fi['n'] == 0:
                     pass
                 elif k == 0:
                     self.f.add('variadic-no-varargs')
@@ -257,7 +325,7 @@ class Gen:
                         args.append([])     # trailing comma: F(a,)
                 else:
                     for _ in range(k):
-                        args.append(self.arg(depth))
+                        args.append(self.arg(depth, 'str' if fi['va_str'] else 'any', outer))
         out = [name, '(']
         for i, a in enumerate(args):
             if i:
@@ -267,7 +335,7 @@ class Gen:
         self.f.add('call')
         return out
 
-    def body_tokens(self, n, params=(), depth=0, variadic=False):
+    def body_tokens(self, n, params=(), depth=0, variadic=False, outer=None):
         r = self.r
         out = []
         for _ in range(n):
@@ -281,13 +349,7 @@ class Gen:
             elif x < 0.78:
                 out += [r.choice(self.obj + self.num + self.cfg)]
             elif x < 0.9 and depth < 2:
-                c = self.call(depth + 1)
-                if params and r.random() < 0.5:
-                    # pass a parameter on to the inner call
-                    for i, t in enumerate(c):
-                        if t in IDENTS and r.random() < 0.5:
-                            c[i] = r.choice(params)
-                out += c
+                out += self.call(depth + 1, outer=outer)
             elif x < 0.95:
                 out += ['(', self.atom_noparen(), r.choice(['+', '*', ',']), self.atom_noparen(), ')']
             else:
@@ -335,22 +397,26 @@ class Gen:
     def define_fun(self):
         r = self.r
         name = r.choice(list(self.fun))
-        n, variadic, _ = self.fun[name]
+        fi = self.fun[name]
+        n, variadic, kinds = fi['n'], fi['variadic'], fi['kinds']
         pnames = ['p%d' % i for i in range(n)] if r.random() < 0.7 else ['a', 'b', 'c'][:n]
-        kinds = ['any'] * n
+        outer = {}
+        for p, k in zip(pnames, kinds):
+            outer.setdefault(k, []).append(p)
+        strable = outer.get('str', []) + outer.get('paste', [])
+        pastable = outer.get('paste', [])
         body = []
-        nparts = r.randint(1, 4)
-        for _ in range(nparts):
+        for _ in range(r.randint(1, 4)):
             x = r.random()
-            if pnames and x < 0.22:
-                p = r.choice(pnames)
+            if strable and x < 0.22:
+                p = r.choice(strable)
                 body += ['#', p] if r.random() < 0.8 else ['#' + p]
                 self.f.add('stringify')
             elif x < 0.45:
-                body += self.paste(pnames, kinds)
+                body += self.paste(pastable)
             elif variadic and x < 0.65:
                 y = r.random()
-                if y < 0.3:
+                if y < 0.3 and fi['va_str']:
                     body += ['#', '__VA_ARGS__']
                     self.f.add('stringify-va-args')
                 elif y < 0.6:
@@ -362,28 +428,23 @@ class Gen:
                     body += ['__VA_ARGS__']
                 self.f.add('va-args')
             else:
-                body += self.body_tokens(r.randint(1, 3), tuple(pnames), depth=1, variadic=variadic)
-        self.kinds[name] = kinds
-        self.defined_fun.add(name)
+                body += self.body_tokens(r.randint(1, 3), tuple(pnames), depth=1, variadic=variadic, outer=outer)
         params = list(pnames) + (['...'] if variadic else [])
         return self._define_line(name, params, body)
 
-    def paste(self, pnames, kinds):
-        """tokens `L ## R` whose result is always one valid token for the argument kinds recorded"""
+    def paste(self, pastable):
+        """tokens `L ## R` whose result is always one valid token for arguments of kind 'paste'"""
         r = self.r
         self.f.add('paste')
 
         def operand(side):
             x = r.random()
-            if pnames and x < 0.6:
-                p = r.choice(pnames)
-                kinds[pnames.index(p)] = 'paste'
-                return p
+            if pastable and x < 0.6:
+                return r.choice(pastable)
             if x < 0.8 or side == 'L':
                 return r.choice(['M', 'N', 'C', 'x', 'foo', 'F1_', 'pre_'])
             return r.choice(['0', '1', '2', '_t', 'x'])
-        x = r.random()
-        if x < 0.08 and allowed('paste-operators'):
+        if r.random() < 0.08 and allowed('paste-operators'):
             self.f.add('paste-operators')
             a, b = r.choice([('<', '<'), ('+', '+'), ('-', '>'), ('=', '='), ('&', '&'), ('<<', '='), ('!', '=')])
             return [a, '##', b]
@@ -402,6 +463,7 @@ class Gen:
         text = self.join(body)
         if text and r.random() < 0.12 and len(body) > 2:
             # line continuation somewhere between two tokens
+            body = self.sanitise(body)
             k = r.randint(1, len(body) - 1)
             text = self.join(body[:k]) + ' \\\n    ' + self.join(body[k:])
             self.f.add('line-continuation')
@@ -700,7 +762,7 @@ class Gen:
             self.f.add('D-function-like')
             self.fun_d = True
         for _ in range(r.choice([0, 0, 1, 1, 2])):
-            name = r.choice(self.cfg + self.num)
+            name = r.choice(self.cfg + self.num if allowed('U-of-file-defined-macro') else self.cfg)
             opts.append(('U', name))          # after every -D: the order gcc needs for "-U wins"
             self.f.add('U-after-D' if name in dnames else 'U')
         for d in self.incdirs:
